@@ -23,6 +23,10 @@ import (
 
 func TestMain(m *testing.M) {
 	flag.Parse()
+	// before anything else touches the repository's code (not in fuzz workers, which restart often)
+	if f := flag.Lookup("test.fuzz"); f == nil || f.Value.String() == "" {
+		coldStart()
+	}
 	// The repository logs through glog. Keep it away from /tmp and from our verdict
 	// channel: logs go to the os.Stderr *variable*, which we point at /dev/null; runtime
 	// panics and race reports are written to file descriptor 2 directly and stay visible.
